@@ -1,6 +1,7 @@
 import DmrVerif.Driver.Loop
 import DmrVerif.Driver.Crc
+import DmrVerif.Driver.CrcStream
 
 /-! model driver for property C05 -/
 
-def main : IO Unit := Dmr.Driver.runMain [Dmr.Driver.crcOp]
+def main : IO Unit := Dmr.Driver.runMain [Dmr.Driver.crcOp, Dmr.Driver.crcStreamOp]
